@@ -41,6 +41,13 @@ for old, new in (
     if src.count(old) != 1:
         sys.exit("mkoverlay: runtime/proc.go: expected exactly one match of %r, found %d" % (old, src.count(old)))
     src = src.replace(old, new)
+# sync.Mutex switches to starvation mode when a waiter has waited for more than 1 ms of REAL time
+# (internal/sync reads the monotonic clock through this function): under a simulator that is a
+# wall-clock dependence of who gets a contended lock next. In simulation the clock it sees stands
+# still, so the mutex stays in normal mode (woken waiters still queue in front).
+a, b = sub("runtime/sema.go", "func internal_sync_nanotime() int64 {\n\treturn nanotime()\n",
+           "func internal_sync_nanotime() int64 {\n\tif verifSimState != 0 {\n\t\treturn 1\n\t}\n\treturn nanotime()\n")
+repl[a] = b
 dst = os.path.join(out, "runtime_proc.go")
 open(dst, "w").write(src)
 repl[os.path.join(goroot, "src", "runtime/proc.go")] = dst
